@@ -1,3 +1,4 @@
+import os
 OUTSIDE = ("records with more than the stated RRs / labels / payload sizes; names or messages near the 255-byte, 16 KiB and "
            "64 KiB limits as concrete data (the 14-bit pointer rule is checked with a symbolic name offset up to 70000 in "
            "ares_nameoffset_find and with concrete boundary offsets in the full name writer; a 17 KiB record was replayed "
@@ -344,8 +345,27 @@ def jobs(tier, seed):
     return J
 
 
+def cached_record_jobs(tier):
+    """'For any DNS record obtained from the parser ...': the records applications actually receive are often handed out by
+    the query cache, which marks them with the time they spent cached (ttl_decrement).  What the getters report for
+    such a record and what ares_dns_write() puts on the wire must agree (written TTL = reported TTL = original minus
+    the time cached, floored at 0), so that the serialised form parses back field by field.  That obligation is
+    C08's ttl_view.c; it is run here too."""
+    import importlib.util
+    p08 = os.path.join(os.path.dirname(os.path.abspath(__file__)), "..", "C08", "jobs.py")
+    spec = importlib.util.spec_from_file_location("jobs_C08_reuse03", p08)
+    m08 = importlib.util.module_from_spec(spec); spec.loader.exec_module(m08)
+    out = []
+    for j in m08.jobs(tier, 0):
+        if j.get("harness") == "ttl_view.c" and j["name"] == "c08_ttl":
+            j = dict(j); j["harness"] = "../C08/" + j["harness"]
+            out.append(j)
+    return out
+
+
 def all_jobs(tier, seed):
     J = []
+    J += cached_record_jobs(tier)
     J += cb_jobs(tier)
     J += leg_jobs(tier)
     J += esc_jobs(tier)
